@@ -5,6 +5,8 @@ CONSTANTS
   MaxDel = 1
   FixLockOrder = TRUE
   GuardUnstore = TRUE
+  MaxOpenFail = 1
+  StoreBeforeOpen = FALSE
   RecordHist = FALSE
 PROPERTY EveryCallReturns
 CHECK_DEADLOCK FALSE
